@@ -18,6 +18,8 @@ RULE = ('Dense tensors/operators of order 1..4 (mode sizes 1..4) are drawn with 
         'resulting ranks (TT-SVD quasi-optimality, valid for any prefix truncation rule); (c) threshold only: ||T-T~||_F <= '
         'theta ||T||_F sqrt(D), D = number of discarded singular directions; (d) threshold 0 and no cap: exact. Non-trivial: '
         'the cap or the threshold actually discards something on some bond.')
+RULE += (' ' + 'Added classes: objects with a history before the truncating call (partial sweeps, in-place changes), NumPy-scalar thresholds and caps for every entry point, integer-typed core lists (rounding judged relative to the cores), order-2 trains with modes of size 48..60 and a full-rank bond under caps 1..5.')
+
 ASSUMPTIONS = [
     'oracle: numpy.linalg.svd of dense unfoldings; bounds carry a slack of 1e-9 * ||T||_F',
     'the exactly-zero tensor is only used with threshold 0 (the relative cut s/s[0] is undefined for s[0] = 0)',
@@ -142,7 +144,7 @@ def array_case(draw):
         th = 0
     else:
         th = draw(st.one_of(st.just(0), st.floats(-12, -0.3).map(lambda e: float(10.0 ** e)), st.floats(-3, -0.3).map(lambda e: float(10.0 ** e))))
-    return {'t': ts, 'cap': cap, 'threshold': th}
+    return {'t': ts, 'cap': cap, 'threshold': th, 'cap_numpy_int': draw(st.sampled_from([False, False, True]))}
 
 
 def body_array(case):
@@ -224,6 +226,15 @@ def cores_case(draw):
     # caller changed a core array in place)
     entry = draw(st.sampled_from(['ctor', 'ortho', 'left_then_right', 'right_then_left', 'left_only', 'right_only',
                                   'partial_left_then_ortho', 'partial_right_then_ortho', 'sweep_inplace_change_then_ortho']))
+    if draw(st.sampled_from([False] * 11 + [True])):
+        # two large modes and a full-rank bond (core matrices of 48 ... 60 rows and columns) under a small cap: for order 2 the bound
+        # is the best rank-r error itself, so any decomposition that is only nearly optimal (randomised, iterative) exceeds it
+        n1, n2 = draw(st.integers(48, 60)), draw(st.integers(48, 60))
+        a['rows'], a['cols'], a['ranks'] = [n1, n2], [1, 1], [1, min(n1, n2), 1]
+        a['decay'] = False
+        a['int_dtype'] = False
+        cap = draw(st.sampled_from([1, 2, 3, 5]))
+        entry = draw(st.sampled_from(['ctor', 'ortho', 'left_then_right', 'right_then_left']))
     return {'a': a, 'cap': cap, 'entry': entry, 'aliased': draw(st.sampled_from([False, False, False, True])),
             'cap_numpy_int': draw(st.sampled_from([False, False, True]))}
 
@@ -318,6 +329,8 @@ def body_cores(case):
     lab = gen.spec_labels(spec)
     lab.add(entry)
     lab.add('cap_list' if isinstance(case['cap'], list) else 'cap_int')
+    if max(spec['rows']) >= 48:
+        lab.add('large_core_matrices')
     if case.get('aliased') and len({id(c) for c in cores}) < d:
         lab.add('aliased_cores')
     spectra = unfold_spectra(x, spec['rows'], spec['cols'])
